@@ -251,11 +251,131 @@ func resolve(v ssa.Value) ssa.Value {
 		}
 		s := singleStore(al)
 		if s == nil {
-			return v
+			if u, ok := v.(*ssa.UnOp); ok {
+				s = reachingStore(u, al)
+			}
+			if s == nil {
+				return v
+			}
 		}
 		v = s
 	}
 	return v
+}
+
+// reachingStore: the unique store into local variable al that reaches the
+// load ld (flow-sensitive, within one function): a store S that dominates the
+// load such that no other store to al (and no creation or call of a closure
+// capturing al) lies on a path from S to the load.
+func reachingStore(ld *ssa.UnOp, al *ssa.Alloc) ssa.Value {
+	f := ld.Parent()
+	if f == nil {
+		return nil
+	}
+	type site struct {
+		blk *ssa.BasicBlock
+		idx int
+		val ssa.Value // nil for clobbering sites
+	}
+	var sites []site
+	for _, b := range f.Blocks {
+		for i, in := range b.Instrs {
+			switch x := in.(type) {
+			case *ssa.Store:
+				if x.Addr == ssa.Value(al) {
+					sites = append(sites, site{b, i, x.Val})
+				}
+			case *ssa.MakeClosure:
+				for _, bd := range x.Bindings {
+					if bd == ssa.Value(al) {
+						sites = append(sites, site{b, i, nil})
+					}
+				}
+			case *ssa.Call:
+				for _, a := range x.Call.Args {
+					if a == ssa.Value(al) {
+						sites = append(sites, site{b, i, nil})
+					}
+				}
+			}
+		}
+	}
+	lb := ld.Block()
+	li := -1
+	for i, in := range lb.Instrs {
+		if in == ssa.Instruction(ld) {
+			li = i
+		}
+	}
+	// candidate: last site before the load in its block, else walk up the dominator tree
+	var best *site
+	for i := range sites {
+		s := &sites[i]
+		if s.blk == lb && s.idx < li && (best == nil || best.blk != lb || s.idx > best.idx) {
+			best = s
+		}
+	}
+	if best == nil {
+		for d := lb.Idom(); d != nil && best == nil; d = d.Idom() {
+			for i := range sites {
+				s := &sites[i]
+				if s.blk == d && (best == nil || s.idx > best.idx) {
+					best = s
+				}
+			}
+		}
+	}
+	if best == nil || best.val == nil {
+		return nil
+	}
+	// no other site between best and the load
+	for i := range sites {
+		t := &sites[i]
+		if t == best {
+			continue
+		}
+		if t.blk == best.blk && t.idx < best.idx {
+			if t.blk != lb { // earlier in the same block: irrelevant unless in a loop back to it
+				if !reachableFrom(best.blk, nil)[best.blk] || !selfReach(best.blk) {
+					continue
+				}
+			}
+		}
+		// t reachable from best without re-passing best, and load reachable from t
+		fromBest := reachAfter(best.blk, best.idx)
+		if !(fromBest[t.blk] || (t.blk == best.blk && t.idx > best.idx)) {
+			continue
+		}
+		toLoad := reachAfter(t.blk, t.idx)
+		if toLoad[lb] || (t.blk == lb && t.idx < li) {
+			if t.blk == lb && t.idx > li {
+				continue
+			}
+			return nil
+		}
+	}
+	return best.val
+}
+
+func selfReach(b *ssa.BasicBlock) bool {
+	for _, s := range b.Succs {
+		if reachableFrom(s, nil)[b] {
+			return true
+		}
+	}
+	return false
+}
+
+// reachAfter: blocks reachable by leaving block b after instruction idx
+// (b itself only if it lies on a cycle).
+func reachAfter(b *ssa.BasicBlock, idx int) map[*ssa.BasicBlock]bool {
+	out := map[*ssa.BasicBlock]bool{}
+	for _, s := range b.Succs {
+		for k := range reachableFrom(s, nil) {
+			out[k] = true
+		}
+	}
+	return out
 }
 
 // loopBlocks returns the blocks of the loop with the given header test block:
